@@ -79,4 +79,12 @@ PROPS = {
         "trusted_base": ["header JSON -> header is a parameter P of the theorems; in the run it is a table computed by the library's own serde layer (JwsHeader::from_slice + accessors)", "signature scheme V is a parameter (toy MAC in the run; real Ed25519 only in the implementation-only stream); unforgeability is not proved", "JSON envelope of flattened/general serializations handled at member level (serde layer by correspondence)"],
         "assumptions": [],
     },
+    "C06": {
+        "translate": True,
+        "diff_is_violation": ["hist", "status"],
+        "trivial": ["bad-request", "err"],
+        "rule": "streams: (1) corpus; (2) bitmaps over ~75 (thorough ~340) index sets: empty, singletons, the repository's test vectors, u32::MAX, container boundaries (65535/65536/131071/131072), dense ranges, strided runs, sets spanning 5 containers, sparse random over spans 100 / 7*10^4 / 2^20 / 2^32 with 1..2000 members (thorough: 10^5 members) — each encoded by the library (to_service), decoded through TryFrom<&Service>, also in the legacy double-encoded form Base64(Base64Url(zlib)), in 5 malformed variants, with wrong / additional service types and a non-URL endpoint; the compressed bytes and the set they stand for are passed to the model as a codec fact table (computed with the real flate2 + roaring), the model does detection / base64 / prefix / type logic itself; (3) 300 (3000) random revoke/unrevoke batch histories through CoreDocument with membership queries, a second untouched bitmap service as frame; (4) the check_status decision table: 3 modes x status {absent, bitmap, other type} x index property {absent, not a string, NaN, 0, 7, u32::MAX, 2^32} x index query {none, equal, different, duplicated, mixed, NaN} x status id is/ is not a DID URL x issuer document matches or not x service {missing, empty, containing, not containing}. Non-trivial = reply not err/bad-request; distinct request lines.",
+        "trusted_base": ["roaring serialisation and zlib (flate2) are an abstract codec in the theorems: hypotheses unpack(pack s)=s and 'compressed stream starts with 78 9C' — both observed on every generated bitmap (the fact table is computed from the real bytes)", "url::Url data-URL handling, serde of Service/Status (correspondence only)", "document-level frame (other services untouched) is checked by the implementation-side oracle; the Lean model covers the addressed endpoint"],
+        "assumptions": [],
+    },
 }
